@@ -41,6 +41,10 @@ pub enum Op {
     RowHeight { sheet: usize, row: u32, h: f64 },
     Table { sheet: usize, name: String, top: u32 },
     CommentRich { sheet: usize, cell: String, author: String, parts: Vec<String> },
+    /// assorted cell formatting: k selects italic / font colour / size+name / border / alignment / wrap
+    Format { sheet: usize, cell: String, k: u8 },
+    HideRow { sheet: usize, row: u32 },
+    HideCol { sheet: usize, col: u32 },
     EditComment { sheet: usize, nth: usize, text: String },
 }
 
@@ -76,6 +80,9 @@ impl Op {
             Op::RowHeight { .. } => "row_height",
             Op::Table { .. } => "table",
             Op::CommentRich { .. } => "comment_rich",
+            Op::Format { .. } => "format",
+            Op::HideRow { .. } => "hide_row",
+            Op::HideCol { .. } => "hide_col",
             Op::EditComment { .. } => "edit_comment",
         }
     }
@@ -244,6 +251,40 @@ pub fn apply(book: &mut Spreadsheet, op: &Op) -> bool {
         Op::RowHeight { sheet, row, h } => sheet_mut(book, *sheet).map(|s| {
             s.get_row_dimension_mut(row).set_height(*h);
         }),
+        Op::Format { sheet, cell, k } => sheet_mut(book, *sheet).map(|s| {
+            let st = s.get_style_mut(cell.as_str());
+            match k % 7 {
+                0 => {
+                    st.get_font_mut().set_italic(true);
+                }
+                1 => {
+                    st.get_font_mut().get_color_mut().set_argb("FF3366CC");
+                }
+                2 => {
+                    st.get_font_mut().set_size(14.0).set_name("Arial");
+                }
+                3 => {
+                    st.get_borders_mut().get_bottom_mut().set_border_style(umya::Border::BORDER_THIN);
+                    st.get_borders_mut().get_left_mut().set_border_style(umya::Border::BORDER_DOUBLE);
+                }
+                4 => {
+                    st.get_alignment_mut().set_horizontal(umya::HorizontalAlignmentValues::Center);
+                }
+                5 => {
+                    st.get_alignment_mut().set_wrap_text(true);
+                    st.get_alignment_mut().set_vertical(umya::VerticalAlignmentValues::Top);
+                }
+                _ => {
+                    st.get_font_mut().set_strikethrough(true).set_underline("single");
+                }
+            }
+        }),
+        Op::HideRow { sheet, row } => sheet_mut(book, *sheet).map(|s| {
+            s.get_row_dimension_mut(row).set_hidden(true);
+        }),
+        Op::HideCol { sheet, col } => sheet_mut(book, *sheet).map(|s| {
+            s.get_column_dimension_by_number_mut(col).set_hidden(true);
+        }),
         Op::CommentRich { sheet, cell, author, parts } => sheet_mut(book, *sheet).map(|s| {
             let mut c = umya::Comment::default();
             c.new_comment(cell.as_str());
@@ -360,7 +401,10 @@ pub fn gen_cell_op(rng: &mut Rng, cfg: &GenCfg, tag: &str) -> Op {
                 Op::SetBlank { sheet, cell }
             }
         }
-        6 => match rng.usize(3) {
+        6 => match rng.usize(7) {
+            3 | 4 => Op::Format { sheet, cell, k: rng.below(7) as u8 },
+            5 => Op::HideRow { sheet, row: 1 + rng.below(12) as u32 },
+            6 => Op::HideCol { sheet, col: 1 + rng.below(8) as u32 },
             0 => Op::Bold { sheet, cell },
             1 => Op::NumFmt { sheet, cell, code: ["0.00", "#,##0", "0%", "yyyy-mm-dd"][rng.usize(4)].to_string() },
             _ => Op::FillColor { sheet, cell, argb: ["FFFF0000", "FF00FF00", "FF0000FF"][rng.usize(3)].to_string() },
@@ -399,6 +443,18 @@ pub fn style_fp(st: &umya::Style) -> String {
             f.get_bold(),
             f.get_italic(),
             f.get_color().get_argb()
+        ));
+    }
+    if let Some(f) = st.get_font() {
+        v.push(format!("font2:{}:{}:{}", f.get_strikethrough(), f.get_underline(), f.get_italic()));
+    }
+    if let Some(b) = st.get_borders() {
+        v.push(format!(
+            "bd:{}:{}:{}:{}",
+            b.get_left().get_border_style(),
+            b.get_right().get_border_style(),
+            b.get_top().get_border_style(),
+            b.get_bottom().get_border_style()
         ));
     }
     if let Some(c) = st.get_background_color() {
